@@ -131,7 +131,8 @@ pub fn run_scenario(sc: &Scenario, run: u64, agg: &mut Agg, pre: &dyn Fn(&Scenar
 /// C05 (sequential) + C19: for one sampled (instance, configuration) the uninterrupted run gives K polls,
 /// then every cutoff index k in 1..=K+1 is executed (fault enumeration over the crash point).
 pub fn run_seq_sweep(arm: &str, seed: u64, run: u64, agg: &mut Agg, explicit: Option<&Scenario>) -> Option<ViolationRecord> {
-    let opts = if arm == "seq-sweep-nodup" { ArmOpts { force_nodup: true, reconverge: true, force_cache: Some(false), knapsack_quarters: 3, ..Default::default() } } else { ArmOpts { knapsack_quarters: 1, ..Default::default() } };
+    let par = arm == "par-sweep";
+    let opts = if par { ArmOpts { parallel: true, max_threads: 3, knapsack_quarters: 1, ..Default::default() } } else if arm == "seq-sweep-nodup" { ArmOpts { force_nodup: true, reconverge: true, force_cache: Some(false), knapsack_quarters: 3, ..Default::default() } } else { ArmOpts { knapsack_quarters: 1, ..Default::default() } };
     let base = match explicit { Some(s) => s.clone(), None => { let mut s = solve::generate(arm, seed, opts); s.cut = CutPlan::Never; s } };
     let mut viol: Vec<Violation> = vec![];
     let full = solve::execute(&base);
@@ -157,7 +158,7 @@ pub fn run_seq_sweep(arm: &str, seed: u64, run: u64, agg: &mut Agg, explicit: Op
             for x in jv { if !viol.iter().any(|y| y.class == x.class && y.props == x.props) { viol.push(Violation { msg: format!("[cutoff at poll {k} of {k_full}] {}", x.msg), ..x }); } }
             if !out.returned { continue; }
             series.push((k, out.lb, out.ub, out.is_exact));
-            if let Some((plb, pub_)) = prev {
+            if let (Some((plb, pub_)), false) = (prev, par) {
                 if out.lb < plb { viol.push(Violation { props: vec!["C19".into()], class: "lb-decreased".into(), msg: format!("cutoff at poll {} gives lower bound {} but cutoff at poll {} gives {}", k - 1, plb, k, out.lb) }); }
                 if out.ub > pub_ { viol.push(Violation { props: vec!["C19".into()], class: "ub-increased".into(), msg: format!("cutoff at poll {} gives upper bound {} but cutoff at poll {} gives {}", k - 1, pub_, k, out.ub) }); }
                 agg.hit("probe:ub_strictly_decreased_between_consecutive_k", out.ub < pub_);
@@ -165,13 +166,13 @@ pub fn run_seq_sweep(arm: &str, seed: u64, run: u64, agg: &mut Agg, explicit: Op
             }
             prev = Some((out.lb, out.ub));
             if out.is_exact { if exact_from.is_none() { exact_from = Some(k); } } else { exact_from = None; }
-            if exact_from.is_some() {
+            if exact_from.is_some() && !par {
                 let ok = out.best_value == opt && (opt.is_none() || (out.lb == opt.unwrap() && out.ub == opt.unwrap()));
                 if !ok { viol.push(Violation { props: vec!["C19".into()], class: "exact-but-bounds-open".into(), msg: format!("cutoff at poll {k}: is_exact with value {:?}, bounds [{}, {}], optimum {:?}", out.best_value, out.lb, out.ub, opt) }); }
             }
             if k <= k_full { agg.distinct_case(mix(hash_json(&(&base.table, base.dd, base.cache, base.nodup, &base.width, &base.dominance)), k as u64)); }
         }
-        if exact_from.is_none() { viol.push(Violation { props: vec!["C19".into()], class: "never-exact".into(), msg: format!("the run with the cutoff beyond the last poll ({}) is not exact", k_full + 1) }); }
+        if exact_from.is_none() && !par { viol.push(Violation { props: vec!["C19".into()], class: "never-exact".into(), msg: format!("the run with the cutoff beyond the last poll ({}) is not exact", k_full + 1) }); }
         agg.hit("probe:nodup_coalesced_diff_ub", full.fringe.coalesced_diff_ub > 0);
     }
     agg.sample(|| json!({"arm": arm, "seed": seed, "instance": {"n": base.table.n, "s": base.table.s, "next": base.table.next, "cost": base.table.cost, "v0": base.table.v0},
